@@ -524,8 +524,59 @@ def copyAssign {α : Type} [Field α] (o : Ord) (a v : V3 α) : V3 α × Int × 
   | .ZYZr => Gen.Euler.copyAndAssign_ZYZr a v
   | .ZXZr => Gen.Euler.copyAndAssign_ZXZr a v
 
-/-- unfold `copyAssign o` at a concrete order -/
-macro "unfold_copyAssign" : tactic => `(tactic| simp only [copyAssign, Gen.Euler.copyAndAssign_XYZ, Gen.Euler.copyAndAssign_XZY, Gen.Euler.copyAndAssign_YZX, Gen.Euler.copyAndAssign_YXZ, Gen.Euler.copyAndAssign_ZXY, Gen.Euler.copyAndAssign_ZYX, Gen.Euler.copyAndAssign_XZX, Gen.Euler.copyAndAssign_XYX, Gen.Euler.copyAndAssign_YXY, Gen.Euler.copyAndAssign_YZY, Gen.Euler.copyAndAssign_ZYZ, Gen.Euler.copyAndAssign_ZXZ, Gen.Euler.copyAndAssign_XYZr, Gen.Euler.copyAndAssign_XZYr, Gen.Euler.copyAndAssign_YZXr, Gen.Euler.copyAndAssign_YXZr, Gen.Euler.copyAndAssign_ZXYr, Gen.Euler.copyAndAssign_ZYXr, Gen.Euler.copyAndAssign_XZXr, Gen.Euler.copyAndAssign_XYXr, Gen.Euler.copyAndAssign_YXYr, Gen.Euler.copyAndAssign_YZYr, Gen.Euler.copyAndAssign_ZYZr, Gen.Euler.copyAndAssign_ZXZr])
+def makeNearZYXr {α : Type} [Field α] [LinearOrder α] (o : Ord) (sqrt sin cos : α → α) (atan2 : α → α → α) (angleMod : α → α) (a t : V3 α) : V3 α × Int :=
+  match o with
+  | .XYZ => Gen.Euler.makeNearFromZYXr_XYZ sqrt sin cos atan2 angleMod a t
+  | .XZY => Gen.Euler.makeNearFromZYXr_XZY sqrt sin cos atan2 angleMod a t
+  | .YZX => Gen.Euler.makeNearFromZYXr_YZX sqrt sin cos atan2 angleMod a t
+  | .YXZ => Gen.Euler.makeNearFromZYXr_YXZ sqrt sin cos atan2 angleMod a t
+  | .ZXY => Gen.Euler.makeNearFromZYXr_ZXY sqrt sin cos atan2 angleMod a t
+  | .ZYX => Gen.Euler.makeNearFromZYXr_ZYX sqrt sin cos atan2 angleMod a t
+  | .XZX => Gen.Euler.makeNearFromZYXr_XZX sqrt sin cos atan2 angleMod a t
+  | .XYX => Gen.Euler.makeNearFromZYXr_XYX sqrt sin cos atan2 angleMod a t
+  | .YXY => Gen.Euler.makeNearFromZYXr_YXY sqrt sin cos atan2 angleMod a t
+  | .YZY => Gen.Euler.makeNearFromZYXr_YZY sqrt sin cos atan2 angleMod a t
+  | .ZYZ => Gen.Euler.makeNearFromZYXr_ZYZ sqrt sin cos atan2 angleMod a t
+  | .ZXZ => Gen.Euler.makeNearFromZYXr_ZXZ sqrt sin cos atan2 angleMod a t
+  | .XYZr => Gen.Euler.makeNearFromZYXr_XYZr sqrt sin cos atan2 angleMod a t
+  | .XZYr => Gen.Euler.makeNearFromZYXr_XZYr sqrt sin cos atan2 angleMod a t
+  | .YZXr => Gen.Euler.makeNearFromZYXr_YZXr sqrt sin cos atan2 angleMod a t
+  | .YXZr => Gen.Euler.makeNearFromZYXr_YXZr sqrt sin cos atan2 angleMod a t
+  | .ZXYr => Gen.Euler.makeNearFromZYXr_ZXYr sqrt sin cos atan2 angleMod a t
+  | .ZYXr => Gen.Euler.makeNearFromZYXr_ZYXr angleMod a t
+  | .XZXr => Gen.Euler.makeNearFromZYXr_XZXr sqrt sin cos atan2 angleMod a t
+  | .XYXr => Gen.Euler.makeNearFromZYXr_XYXr sqrt sin cos atan2 angleMod a t
+  | .YXYr => Gen.Euler.makeNearFromZYXr_YXYr sqrt sin cos atan2 angleMod a t
+  | .YZYr => Gen.Euler.makeNearFromZYXr_YZYr sqrt sin cos atan2 angleMod a t
+  | .ZYZr => Gen.Euler.makeNearFromZYXr_ZYZr sqrt sin cos atan2 angleMod a t
+  | .ZXZr => Gen.Euler.makeNearFromZYXr_ZXZr sqrt sin cos atan2 angleMod a t
+
+def makeNearXYZ {α : Type} [Field α] [LinearOrder α] (o : Ord) (sqrt sin cos : α → α) (atan2 : α → α → α) (angleMod : α → α) (a t : V3 α) : V3 α × Int :=
+  match o with
+  | .XYZ => Gen.Euler.makeNearFromXYZ_XYZ angleMod a t
+  | .XZY => Gen.Euler.makeNearFromXYZ_XZY sqrt sin cos atan2 angleMod a t
+  | .YZX => Gen.Euler.makeNearFromXYZ_YZX sqrt sin cos atan2 angleMod a t
+  | .YXZ => Gen.Euler.makeNearFromXYZ_YXZ sqrt sin cos atan2 angleMod a t
+  | .ZXY => Gen.Euler.makeNearFromXYZ_ZXY sqrt sin cos atan2 angleMod a t
+  | .ZYX => Gen.Euler.makeNearFromXYZ_ZYX sqrt sin cos atan2 angleMod a t
+  | .XZX => Gen.Euler.makeNearFromXYZ_XZX sqrt sin cos atan2 angleMod a t
+  | .XYX => Gen.Euler.makeNearFromXYZ_XYX sqrt sin cos atan2 angleMod a t
+  | .YXY => Gen.Euler.makeNearFromXYZ_YXY sqrt sin cos atan2 angleMod a t
+  | .YZY => Gen.Euler.makeNearFromXYZ_YZY sqrt sin cos atan2 angleMod a t
+  | .ZYZ => Gen.Euler.makeNearFromXYZ_ZYZ sqrt sin cos atan2 angleMod a t
+  | .ZXZ => Gen.Euler.makeNearFromXYZ_ZXZ sqrt sin cos atan2 angleMod a t
+  | .XYZr => Gen.Euler.makeNearFromXYZ_XYZr sqrt sin cos atan2 angleMod a t
+  | .XZYr => Gen.Euler.makeNearFromXYZ_XZYr sqrt sin cos atan2 angleMod a t
+  | .YZXr => Gen.Euler.makeNearFromXYZ_YZXr sqrt sin cos atan2 angleMod a t
+  | .YXZr => Gen.Euler.makeNearFromXYZ_YXZr sqrt sin cos atan2 angleMod a t
+  | .ZXYr => Gen.Euler.makeNearFromXYZ_ZXYr sqrt sin cos atan2 angleMod a t
+  | .ZYXr => Gen.Euler.makeNearFromXYZ_ZYXr sqrt sin cos atan2 angleMod a t
+  | .XZXr => Gen.Euler.makeNearFromXYZ_XZXr sqrt sin cos atan2 angleMod a t
+  | .XYXr => Gen.Euler.makeNearFromXYZ_XYXr sqrt sin cos atan2 angleMod a t
+  | .YXYr => Gen.Euler.makeNearFromXYZ_YXYr sqrt sin cos atan2 angleMod a t
+  | .YZYr => Gen.Euler.makeNearFromXYZ_YZYr sqrt sin cos atan2 angleMod a t
+  | .ZYZr => Gen.Euler.makeNearFromXYZ_ZYZr sqrt sin cos atan2 angleMod a t
+  | .ZXZr => Gen.Euler.makeNearFromXYZ_ZXZr sqrt sin cos atan2 angleMod a t
 
 def angleOrderG (o : Ord) : Int × Int × Int :=
   match o with
@@ -661,5 +712,14 @@ macro "unfold_nearest" : tactic => `(tactic| simp only [nearest, Gen.Euler.neare
 
 /-- unfold `makeNear o` at a concrete order -/
 macro "unfold_makeNear" : tactic => `(tactic| simp only [makeNear, Gen.Euler.makeNear_XYZ, Gen.Euler.makeNear_XZY, Gen.Euler.makeNear_YZX, Gen.Euler.makeNear_YXZ, Gen.Euler.makeNear_ZXY, Gen.Euler.makeNear_ZYX, Gen.Euler.makeNear_XZX, Gen.Euler.makeNear_XYX, Gen.Euler.makeNear_YXY, Gen.Euler.makeNear_YZY, Gen.Euler.makeNear_ZYZ, Gen.Euler.makeNear_ZXZ, Gen.Euler.makeNear_XYZr, Gen.Euler.makeNear_XZYr, Gen.Euler.makeNear_YZXr, Gen.Euler.makeNear_YXZr, Gen.Euler.makeNear_ZXYr, Gen.Euler.makeNear_ZYXr, Gen.Euler.makeNear_XZXr, Gen.Euler.makeNear_XYXr, Gen.Euler.makeNear_YXYr, Gen.Euler.makeNear_YZYr, Gen.Euler.makeNear_ZYZr, Gen.Euler.makeNear_ZXZr])
+
+/-- unfold `copyAssign o` at a concrete order -/
+macro "unfold_copyAssign" : tactic => `(tactic| simp only [copyAssign, Gen.Euler.copyAndAssign_XYZ, Gen.Euler.copyAndAssign_XZY, Gen.Euler.copyAndAssign_YZX, Gen.Euler.copyAndAssign_YXZ, Gen.Euler.copyAndAssign_ZXY, Gen.Euler.copyAndAssign_ZYX, Gen.Euler.copyAndAssign_XZX, Gen.Euler.copyAndAssign_XYX, Gen.Euler.copyAndAssign_YXY, Gen.Euler.copyAndAssign_YZY, Gen.Euler.copyAndAssign_ZYZ, Gen.Euler.copyAndAssign_ZXZ, Gen.Euler.copyAndAssign_XYZr, Gen.Euler.copyAndAssign_XZYr, Gen.Euler.copyAndAssign_YZXr, Gen.Euler.copyAndAssign_YXZr, Gen.Euler.copyAndAssign_ZXYr, Gen.Euler.copyAndAssign_ZYXr, Gen.Euler.copyAndAssign_XZXr, Gen.Euler.copyAndAssign_XYXr, Gen.Euler.copyAndAssign_YXYr, Gen.Euler.copyAndAssign_YZYr, Gen.Euler.copyAndAssign_ZYZr, Gen.Euler.copyAndAssign_ZXZr])
+
+/-- unfold `makeNearZYXr o` at a concrete order -/
+macro "unfold_makeNearZYXr" : tactic => `(tactic| simp only [makeNearZYXr, Gen.Euler.makeNearFromZYXr_XYZ, Gen.Euler.makeNearFromZYXr_XZY, Gen.Euler.makeNearFromZYXr_YZX, Gen.Euler.makeNearFromZYXr_YXZ, Gen.Euler.makeNearFromZYXr_ZXY, Gen.Euler.makeNearFromZYXr_ZYX, Gen.Euler.makeNearFromZYXr_XZX, Gen.Euler.makeNearFromZYXr_XYX, Gen.Euler.makeNearFromZYXr_YXY, Gen.Euler.makeNearFromZYXr_YZY, Gen.Euler.makeNearFromZYXr_ZYZ, Gen.Euler.makeNearFromZYXr_ZXZ, Gen.Euler.makeNearFromZYXr_XYZr, Gen.Euler.makeNearFromZYXr_XZYr, Gen.Euler.makeNearFromZYXr_YZXr, Gen.Euler.makeNearFromZYXr_YXZr, Gen.Euler.makeNearFromZYXr_ZXYr, Gen.Euler.makeNearFromZYXr_ZYXr, Gen.Euler.makeNearFromZYXr_XZXr, Gen.Euler.makeNearFromZYXr_XYXr, Gen.Euler.makeNearFromZYXr_YXYr, Gen.Euler.makeNearFromZYXr_YZYr, Gen.Euler.makeNearFromZYXr_ZYZr, Gen.Euler.makeNearFromZYXr_ZXZr])
+
+/-- unfold `makeNearXYZ o` at a concrete order -/
+macro "unfold_makeNearXYZ" : tactic => `(tactic| simp only [makeNearXYZ, Gen.Euler.makeNearFromXYZ_XYZ, Gen.Euler.makeNearFromXYZ_XZY, Gen.Euler.makeNearFromXYZ_YZX, Gen.Euler.makeNearFromXYZ_YXZ, Gen.Euler.makeNearFromXYZ_ZXY, Gen.Euler.makeNearFromXYZ_ZYX, Gen.Euler.makeNearFromXYZ_XZX, Gen.Euler.makeNearFromXYZ_XYX, Gen.Euler.makeNearFromXYZ_YXY, Gen.Euler.makeNearFromXYZ_YZY, Gen.Euler.makeNearFromXYZ_ZYZ, Gen.Euler.makeNearFromXYZ_ZXZ, Gen.Euler.makeNearFromXYZ_XYZr, Gen.Euler.makeNearFromXYZ_XZYr, Gen.Euler.makeNearFromXYZ_YZXr, Gen.Euler.makeNearFromXYZ_YXZr, Gen.Euler.makeNearFromXYZ_ZXYr, Gen.Euler.makeNearFromXYZ_ZYXr, Gen.Euler.makeNearFromXYZ_XZXr, Gen.Euler.makeNearFromXYZ_XYXr, Gen.Euler.makeNearFromXYZ_YXYr, Gen.Euler.makeNearFromXYZ_YZYr, Gen.Euler.makeNearFromXYZ_ZYZr, Gen.Euler.makeNearFromXYZ_ZXZr])
 
 end ImathVerif.Euler
